@@ -326,3 +326,123 @@ func genAdHitFail(r *vlib.R) string {
 		vlib.Pick(r, []string{"udp", "udp", "tcp"}), vlib.Pick(r, []string{"wire-direct", "wire-direct", "wire-ww", "msg"}),
 		2+r.Intn(3), vlib.Pick(r, []string{"servfail-ede", "servfail-ede", "servfail", "refused", "formerr", "notimp"}))
 }
+
+// ------------------------------------------------------------------ histories of a zone's key set in the cache
+
+// keyStub is the resolver below the cache for one DNSKEY question: toward CD=1 it relays whatever is upstream
+// (the genuine set, or a padded one), toward CD=0 it validates: the genuine set with AD, or SERVFAIL + EDE.
+type keyStub struct{ authentic bool }
+
+func (s *keyStub) Name() string { return "keystub" }
+func (s *keyStub) ServeDNS(ctx context.Context, ch *middleware.Chain) {
+	_, req := ch.Materialize(ctx)
+	if req == nil {
+		return
+	}
+	m := new(dns.Msg)
+	m.SetReply(req)
+	m.RecursionAvailable = true
+	m.CheckingDisabled = req.CheckingDisabled
+	q := req.Question[0]
+	key := func(flags uint16) dns.RR {
+		return &dns.DNSKEY{Hdr: dns.RR_Header{Name: q.Name, Rrtype: dns.TypeDNSKEY, Class: dns.ClassINET, Ttl: 300}, Flags: flags, Protocol: 3, Algorithm: 13, PublicKey: "bWFyaw=="}
+	}
+	switch {
+	case s.authentic:
+		m.Answer = []dns.RR{key(257)}
+		m.AuthenticatedData = !req.CheckingDisabled
+	case req.CheckingDisabled:
+		m.Answer = []dns.RR{key(256), key(257)} // padded with a key of the attacker's
+	default:
+		m.Rcode = dns.RcodeServerFailure
+		if req.IsEdns0() != nil {
+			m.SetEdns0(1232, true)
+			m.IsEdns0().Option = append(m.IsEdns0().Option, &dns.EDNS0_EDE{InfoCode: dns.ExtendedErrorCodeDNSBogus, ExtraText: "bogus"})
+		}
+	}
+	_ = ch.Writer.WriteMsg(m)
+	ch.Cancel()
+}
+
+func keyView(m *dns.Msg) string {
+	if m == nil {
+		return "none"
+	}
+	if m.Rcode != dns.RcodeSuccess {
+		return "failed"
+	}
+	n := 0
+	for _, rr := range m.Answer {
+		if _, ok := rr.(*dns.DNSKEY); ok {
+			n++
+		}
+	}
+	switch n {
+	case 1:
+		return "genuine"
+	case 2:
+		return "padded"
+	}
+	return "other"
+}
+
+// keycache run <events>
+//   events (comma list): q0a q0b q1a q1b = a client asks '<zone> DNSKEY' with CD=0/1 while upstream is
+//   authentic (a) / padded (b);  x = every cached entry expires.  After the history the validator's own fetch
+//   (Store.GetWithContext, CD=0) and a checking-disabled one (CD=1) are made.
+func execKeyCache(f []string) vlib.Res {
+	cfg := &config.Config{CacheSize: 1024, Expire: 600}
+	e := edns.New(cfg)
+	c := cache.New(cfg)
+	defer c.Stop()
+	stub := &keyStub{}
+	hs := []middleware.Handler{e, c, stub}
+	const name = "zone.keytest."
+	var replies []string
+	or := "ok"
+	for _, ev := range splitList(f[2]) {
+		if ev == "x" {
+			cache.VerifShift(c, 700*time.Second)
+			replies = append(replies, "-")
+			continue
+		}
+		cd := ev[1] == '1'
+		stub.authentic = ev[2] == 'a'
+		req := clientReq(name, dns.TypeDNSKEY, cd, true, false, true)
+		resp, _ := runChain(hs, req, "udp", false, false)
+		v := keyView(resp)
+		replies = append(replies, v)
+		if !cd && v == "padded" {
+			or = fail("keycache/validating-client-served-unvalidated-key-set", "events=%s at=%s", f[2], ev)
+		}
+		if resp != nil && resp.AuthenticatedData && (cd || v != "genuine") {
+			or = fail("keycache/ad-on-unvalidated-key-set", "events=%s at=%s", f[2], ev)
+		}
+	}
+	st := c.Store().(*cache.Store)
+	see := func(cd bool) string {
+		req := new(dns.Msg)
+		req.SetQuestion(name, dns.TypeDNSKEY)
+		req.SetEdns0(1232, true)
+		req.CheckingDisabled = cd
+		m, ok := st.GetWithContext(context.Background(), req)
+		if !ok {
+			return "none"
+		}
+		return keyView(m)
+	}
+	v0, v1 := see(false), see(true)
+	if v0 == "padded" {
+		or = fail("keycache/validator-fetch-served-unvalidated-key-set", "events=%s", f[2])
+	}
+	return vlib.Res{Impl: fmt.Sprintf("replies=%s v0=%s v1=%s", strings.Join(replies, ","), v0, v1), Oracle: or, Tags: "nt"}
+}
+
+func genKeyCache(r *vlib.R) string {
+	n := 1 + r.Intn(6)
+	evs := make([]string, n)
+	for i := range evs {
+		evs[i] = vlib.Pick(r, []string{"q0a", "q0b", "q1a", "q1b", "q1b", "q0a", "x"})
+	}
+	return "keycache run " + strings.Join(evs, ",")
+}
